@@ -21,7 +21,7 @@ def gen_cases(ctx, n_files, sizes, rng=None):
     for i in range(n_files):
         opts = ioc.gen_opts(rng, i)
         fc = ioc.gen_filecase(rng, rng.choice(sizes), opts=opts)
-        cases.append({"files": [fc], "queries": [["len", 0, None]]})
+        cases.append({"files": [fc], "queries": [["len", 0, None]], "_chunked": True})
     return cases
 
 
